@@ -343,6 +343,11 @@ class ODLDecoder(PVLDecoder):
             if match is not None:
                 gd = match.groupdict(default=0)
                 dt = super().decode_datetime(gd["dt"])
+                if not hasattr(dt, "tzinfo"):
+                    # Only times and datetimes can have a time zone
+                    # offset, not dates, and not the text returned
+                    # for times with leap seconds.
+                    raise ValueError
                 offset = timedelta(
                     hours=int(gd["hour"]), minutes=int(gd["minute"])
                 )
